@@ -8,19 +8,25 @@ from ._layouts import translate  # noqa: F401  (T1)
 
 MODULES = ["Iodata.Props.C03"]
 RULE = (
-    "per format, a random molecular model (sizes cycling through every field-width boundary: 9/10, 99/100, 999/1000 atoms "
-    "and bonds, thorough also 9999/10000, 99999/100000 where a 5-column serial exists; all elements; magnitudes from the "
-    "classes {0, -0, last digit, smallest/largest value with k integer digits for every k the column holds}) is rendered by "
-    "the Lean spec renderer of the *published* layout (free-format blank runs are part of the random input; fixed-column "
-    "formats are rendered from hand-written column tables) and by an independent Python writer (spec-writers-agree), then "
-    "read by iodata.api.load_one: spec-load:<fmt> requires the re-quantised result to equal the model; load-spec:<fmt> "
-    "compares it with the Lean reader model. non-trivial = distinct file"
+    "per format, a random molecular model (sizes cycling through every field-width boundary: 9/10, 99/100, 999/1000, 9999/10000 "
+    "atoms and bonds, thorough also 99999/100000 where a 5-column serial exists; all elements; magnitudes from the classes "
+    "{0, -0, last digit, smallest/largest value with k integer digits for every k the column holds}) is rendered by the Lean "
+    "spec renderer of the *published* layout (free-format blank runs are part of the random input; fixed-column formats are "
+    "rendered from hand-written column tables; FCHK with Gaussian's widths E22.15 / 6I12 / 5E16.8 and array lengths around "
+    "every multiple of 5 and 6; Cube as I5,4F12.6 / 6E13.5 with rows of length 1..25) and by an independent Python writer "
+    "(spec-writers-agree), then read by iodata.api.load_one: spec-load:<fmt> requires the re-quantised result to equal the "
+    "model; load-spec:<fmt> compares it with the Lean reader model (xyz, sdf, pdb incl. multi-line TITLE/COMPND, mol2, "
+    "gro with precisions 1-6, residue numbers up to 99999, touching fields, with/without velocities, 3- and 9-number "
+    "boxes; cube; fchk). spec-py:<fmt> (GRO, MOL2, extended XYZ with Lattice / "
+    "Properties / energy): Python spec writer only, result compared with the model. non-trivial = distinct file"
 )
 TRUSTED = [
     "harness/vh/props/_layouts.py: ast extraction of line slices / words[i] uses",
     "the hand-written spec column tables in lean/Iodata/Model/Fmt/*.lean and the Python spec writers in _adapters.py "
     "(cross-checked against each other byte for byte on every case)",
     "lean/Iodata/Drv/Fmt.lean: hex and object (de)coding, splitting of file bytes into lines",
+    "harness/vh/props/_gro.py, _mol2.py, _cube.py, _fchk.py: spec object generators, independent Python spec writers, "
+    "exact re-quantisation of the loaded values",
 ]
 ASSUMPTIONS = [
     "text-mode I/O: files contain printable ASCII, tabs and '\\n' only",
@@ -33,15 +39,33 @@ FORMATS = ["xyz", "sdf", "pdb"]
 
 
 def correspond(ctx):
+    from . import _fchk
+
     for k in FORMATS:
-        K.c03_flow(ctx, ADAPTERS[k], ctx.n(40, 400))
+        K.c03_flow(ctx, ADAPTERS[k], ctx.n(600, 2500))
+    _fchk.c03_flow(ctx, ctx.n(800, 3000))
+    from ._cube import CUBE
+    from ._fcidump import corr_index
+    from ._mol2 import MOL2
+
+    K.c03_flow(ctx, MOL2, ctx.n(600, 2500))
+    from ._gro import GRO
+
+    K.c03_flow(ctx, GRO, ctx.n(600, 2500))
+    corr_index(ctx, ctx.n(6, 9))
+    from ._poscar import corr_struct
+
+    corr_struct(ctx, ctx.n(200, 800))
+
+    K.c03_flow(ctx, CUBE, ctx.n(800, 3000))
+    _fchk.corr_shuffles(ctx)
 
 
 def search(ctx):
     from ._adapters2 import SPEC_ONLY
 
     for k, ad in SPEC_ONLY.items():
-        K.c03_spec_only(ctx, ad, ctx.n(40, 400) * (3 if ctx.escalated else 1))
+        K.c03_spec_only(ctx, ad, ctx.n(800, 3000) * (3 if ctx.escalated else 1))
     # the direct evaluation (spec-load:<fmt>) is part of c03_flow; with a broken obligation run a second, larger batch
     if ctx.escalated:
         for k in FORMATS:
